@@ -215,7 +215,7 @@ func probePoints(r *vproto.Rng, p []ring, n int) []geom.Point {
 // composite FixOrientation + op.Area of the unchanged tree is known to be wrong (2^-40: every coordinate
 // difference is below the absolute tolerance 1e-9); they are matched by the `known` signature
 // `SPEC opfix-\S*-tol:xy op\.Area-after-FixOrientation` of findings/C03.json
-var emitKnown = os.Getenv("VERIF_C03_OP_FINDINGS") == "1"
+var emitKnown = os.Getenv("VERIF_C03_OP_FINDINGS") != "0" // on: KNOWN_FINDINGS.json carries the entry
 
 func genOp(out *bufio.Writer, seed uint64, tier string) {
 	r := vproto.NewRng(seed ^ 0x0c03f1e1d)
